@@ -131,22 +131,24 @@ Definition dz_run_hook (d : dz_data) (w : dz_world) : dz_world * Z :=
   if negb (dd_null d) && (dz_len d =? 0) then (w, c_HTP_OK)
   else (w_push_event w d, dc_hook c (w_nhook w)).
 
+(* the clock test made every HTP_COMPRESSION_TIME_FREQ_TEST callbacks *)
+Definition dz_cb_clock (w : dz_world) : dz_world :=
+  if (w_nbcb w) mod c_HTP_COMPRESSION_TIME_FREQ_TEST =? 0 then
+    let '(after, w) := dz_gettimeofday w in
+    match dz_timer_track (w_tspent w) after (w_tbefore w) with
+    | Some sp =>
+      let w := w_set_tbefore (w_set_tspent w sp) after in
+      if sp >? dc_tlimit c then w_set_tpass w true else w
+    | None => w
+    end
+  else w.
+
 Definition dz_callback (d : dz_data) (w : dz_world) : dz_world * Z :=
   let w := w_set_entity w (w_entity w + dz_len d) in
   let '(w, rc) := dz_run_hook d w in
   if negb (rc =? c_HTP_OK) then (w, c_HTP_ERROR)
   else
-    let w := w_set_nbcb w (w_nbcb w + 1) in
-    let w :=
-      if (w_nbcb w) mod c_HTP_COMPRESSION_TIME_FREQ_TEST =? 0 then
-        let '(after, w) := dz_gettimeofday w in
-        match dz_timer_track (w_tspent w) after (w_tbefore w) with
-        | Some sp =>
-          let w := w_set_tbefore (w_set_tspent w sp) after in
-          if sp >? dc_tlimit c then w_set_tpass w true else w
-        | None => w
-        end
-      else w in
+    let w := dz_cb_clock (w_set_nbcb w (w_nbcb w + 1)) in
     if (w_entity w >? dc_bomb c) && (w_entity w >? c_HTP_COMPRESSION_BOMB_RATIO * w_message w)
     then (w, c_HTP_ERROR) else (w, c_HTP_OK).
 
@@ -234,17 +236,19 @@ Definition dz_flush_full (l : dz_layer) (rest : list dz_layer) (w : dz_world)
     else inl (dz_set_obuf l [], rest, w)
   else inl (l, rest, w).
 
+(* LZMA header accumulation: next_in / avail_in are recomputed from d->data, not from next_in *)
+Definition dz_lz_header (d : dz_data) (l : dz_layer) (input : bytes) : dz_layer * bytes :=
+  if dz_hlen l <? c_dz_LZMA_HEADER_SIZE then
+    let want := Z.to_nat (c_dz_LZMA_HEADER_SIZE - dz_hlen l) in
+    let take := if (length input <? want)%nat then length input else want in
+    (dz_set_hlen l (dz_hlen l + Z.of_nat take), skipn take (dd_bytes d))
+  else (l, input).
+
 (* the external decoding step: Some (l, w, input', rc) or None = "return" with the given code *)
 Definition dz_decode (d : dz_data) (l : dz_layer) (w : dz_world) (input : bytes) (rc : Z)
   : (dz_layer * dz_world * bytes * Z) + (dz_layer * dz_world * Z) :=
   if dz_zinit l =? c_dz_COMPRESSION_LZMA then
-    (* header accumulation: next_in / avail_in are recomputed from d->data, not from next_in *)
-    let '(l, input) :=
-      if dz_hlen l <? c_dz_LZMA_HEADER_SIZE then
-        let want := Z.to_nat (c_dz_LZMA_HEADER_SIZE - dz_hlen l) in
-        let take := if (length input <? want)%nat then length input else want in
-        (dz_set_hlen l (dz_hlen l + Z.of_nat take), skipn take (dd_bytes d))
-      else (l, input) in
+    let '(l, input) := dz_lz_header d l input in
     let step1 :=
       if dz_hlen l =? c_dz_LZMA_HEADER_SIZE then
         let '(a, w) := dz_ask w QLzAlloc in
